@@ -96,4 +96,6 @@ def stages(tier, rng, only=None):
                                                              namings=["ints"]), _nt))
     out.append(ac.wide_stage("wide_1000", PID, lambda: ac.wide_cases(rng, 2 if tier == "quick" else 20,
                                                                       ["BioConsert", "Borda", "Copeland"], complete_only=True)))
+    out.append(ac.wide_stage("permutations_17_plus", PID, lambda: ac.permutation_cases(
+        rng, 21 if tier == "quick" else 210, ["PickAPerm", "BioConsert", "Borda", "Copeland"]), chunk=40))
     return [s for s in out if not only or s.name == only]
